@@ -58,6 +58,16 @@ func ruleS1(c *Ctx) {
 		}
 		c.ok("S1", w.fn, f.Pos(), ok1, fmt.Sprintf("%s.%s is exactly the %s %s of Adaptation.syncLock", w.typ, w.fn, map[byte]string{'W': "exclusive", 'R': "shared"}[w.mode], map[bool]string{true: "acquisition", false: "release"}[w.acq]), detail)
 	}
+	// a sync block is never handed out without the lock: BlockPluginSync holds the shared lock at every exit
+	{
+		bpf := m.method(pkgAdapt, "Adaptation", "BlockPluginSync")
+		held := false
+		if eff := la.summarise(bpf); eff != nil {
+			held = eff.acquires[lockID{"Adaptation.syncLock", 'R'}]
+		}
+		c.ok("S1", "BlockPluginSync/every-exit", bpf.Pos(), held, "BlockPluginSync returns with the shared sync lock held on every path",
+			"some path of BlockPluginSync returns a block without having taken the sync lock: while that block is 'held' a plugin can be synchronized and activated, so a container created under it is seen twice or not at all")
+	}
 	// the registration path's side of the gate: its acquisitions and releases of the same lock are exclusive
 	{
 		reg := acceptLoop(m)
@@ -273,6 +283,22 @@ func ruleS2S3(c *Ctx) {
 	}
 	c.ok("S2", "snapshot", sf.Pos(), la.holds(sf, "Adaptation.syncLock", 'W') && okCB, "the state snapshot (syncFn with the plugin's synchronize) is taken with the sync lock held exclusively",
 		"the sync callback runs with lockset "+la.describe(sf)+" (or not with the plugin's synchronize): a container created concurrently is seen neither in the snapshot nor as a creation request — or in both")
+	// the snapshot's context: a deadline that started while the registration was still waiting for the sync blocks
+	// to be released would expire during a long-held block and fail a registration that only had to wait
+	for _, src := range valueSources(sf.Call.Args[0], sf, 0) {
+		ex, ok := src.(*ssa.Extract)
+		if !ok || ex.Index != 0 {
+			continue
+		}
+		w, ok := ex.Tuple.(*ssa.Call)
+		if !ok {
+			continue
+		}
+		if g := m.callee(w.Common()); g != nil && (g.String() == "context.WithTimeout" || g.String() == "context.WithDeadline") {
+			c.ok("S2", "snapshot/deadline", w.Pos(), domInstr(a, w), "a deadline on the snapshot starts only after the sync lock was acquired",
+				"the snapshot's deadline is started before the registration has acquired the sync lock: the time spent waiting for sync blocks counts against it, so a registration that waits longer than the timeout fails although 'pending registrations complete once the last block is released'")
+		}
+	}
 	// activation: a store to the plugin list, or a call of a helper that performs it
 	sites := activationSites(m, f)
 	if len(sites) != 1 {
